@@ -336,9 +336,10 @@ def witness_replay(ck, rng):
 
 
 def run(ck):
-    ck.rule = ("systems: crystal pool (chain, ladder, sc, fcc, bcc, hcp, 2-site chain, B2/chain with spectators, two mobile "
+    ck.rule = ("systems: crystal pool (chain, ladder, sc, fcc, bcc, hcp, diamond, multi-site cells, B2/chain with spectators, two mobile "
                "species) x superlattice (incl. non-diagonal and self-wrapping 1x1x1) x cluster cutoff/order x {plain, jump network "
-               "+ TS clusters, vacancy + jump network}; integer energies. Direct: all occupations x all single-site updates "
+               "+ TS clusters, vacancy + jump network}; always included: samplers with mobile sites that carry no interaction (sublattice excluded "
+               "from the expansion, empty expansion, clusters switched off by spectators); integer energies. Direct: all occupations x all single-site updates "
                "+ swaps + sampled multi-site/sloppy updates (each undone again) on supercells with <= 8 (quick) / 11 (thorough) "
                "free sites; random histories (start, proper, duplicate, overlapping, no-op arguments) on larger ones. "
                "Correspondence: the same kind of histories (plus rejected starts, vacancy arguments, transitions) replayed by "
@@ -362,6 +363,20 @@ def run(ck):
     rng.shuffle(plan)
     budget_ex = ck.n(14, 60)
     budget_rand = ck.n(14, 70)
+    # always: samplers in which some mobile sites carry NO interaction (second mobile sublattice excluded from the expansion,
+    # empty expansion, clusters switched off by the spectators) -- update() must keep occ, both sets and the counts in step there too
+    always = []
+    for name in mcsys.ZERO_INTERACTION:
+        sups = mcsys.SUPERS[name]
+        for k, combo in enumerate([(False, False, False), (True, False, False), (False, True, True)]):
+            S = mcsys.build(rng, name, mcsys.SETUPS[name][0], sups[k % len(sups)] if not ck.quick else sups[0], vacancy=combo[0], jumps=combo[1], ts=combo[2])
+            if S is None: continue
+            always.append(S)
+            nfree = S.Nsites - (1 if combo[0] else 0)
+            if nfree <= maxfree: exhaustive(ck, rng, S, max_multi=ck.n(3, 8) if nfree > 6 else 12)
+            else: random_history(ck, rng, S, ck.n(150, 600))
+            random_history(ck, rng, S, ck.n(60, 200))
+    ck.extra["zero_interaction_systems_always_run"] = len(always)
     for name, setup, sup in plan:
         if ex_done >= budget_ex and nsys >= budget_ex + budget_rand: break
         vac, jn, ts = rng.choice(combos)
@@ -397,7 +412,14 @@ def run(ck):
             items.append((S, trace(ck, rng, S, 0, exhaustive_tiny=True), "exhaustive"))
         except Violation as v:
             report(ck, S, v, [], [])
-    ntr = ck.n(10, 40)
+    for S in always:
+        if len(S.MC.interactvalue) > 400: continue
+        try:
+            items.append((S, trace(ck, rng, S, ck.n(80, 200)), "random"))
+            if S.Nsites <= 6: items.append((S, trace(ck, rng, S, 0, exhaustive_tiny=True), "exhaustive"))
+        except Violation as v:
+            report(ck, S, v, [], [])
+    ntr = ck.n(10, 40) + len(items)
     tries = 0
     while sum(1 for it in items if it[2] == "random") < ntr and tries < 10 * ntr:
         tries += 1
